@@ -163,8 +163,10 @@ def proof_leg(prop, tier):
             res["problems"].append(f"theorem {nm} depends on {sorted(ax - ALLOWED_AXIOMS)}")
     if tier == "thorough":
         mods = pmods + obl.get("modules", [])
-        for m_ in mods:
-            rc = sh(["lake", "env", "leanchecker", m_], cwd=LEAN, timeout=3600)
+        import concurrent.futures
+        with concurrent.futures.ThreadPoolExecutor(max_workers=8) as ex:
+            rcs = list(ex.map(lambda m_: (m_, sh(["lake", "env", "leanchecker", m_], cwd=LEAN, timeout=3600)), mods))
+        for m_, rc in rcs:
             if rc.returncode != 0:
                 res["ok"] = False
                 res["problems"].append(f"leanchecker {m_} failed: {rc.stdout[-500:]}")
@@ -184,6 +186,33 @@ def read_lines(path):
             d[k] = "" if i < 0 else line[i + 1:]
             order.append(k)
     return d, order
+
+
+def read_pair(pi, pm, keep=400):
+    """implementation and model outputs read in lockstep; lines on which they agree are kept only up to
+    `keep` characters (they are not needed in full), disagreeing lines are kept whole. Falls back to
+    two full reads when the files are not aligned line by line."""
+    import itertools
+    di, dm, order = {}, {}, []
+    with open(pi) as fi, open(pm) as fm:
+        for li, lm in itertools.zip_longest(fi, fm):
+            if li is None or lm is None:
+                return read_lines(pi)[0], read_lines(pm)[0]
+            if li == lm:
+                line = li.rstrip("\n")
+                if not line: continue
+                i = line.find(" ")
+                k = line if i < 0 else line[:i]
+                v = "" if i < 0 else line[i + 1:i + 1 + keep]
+                di[k] = v; dm[k] = v
+            else:
+                a, b = li.rstrip("\n"), lm.rstrip("\n")
+                ia, ib = a.find(" "), b.find(" ")
+                ka, kb = (a if ia < 0 else a[:ia]), (b if ib < 0 else b[:ib])
+                if ka != kb:
+                    return read_lines(pi)[0], read_lines(pm)[0]
+                di[ka] = "" if ia < 0 else a[ia + 1:]; dm[kb] = "" if ib < 0 else b[ib + 1:]
+    return di, dm
 
 
 def run_streams(prop, tier, seed, wdir, tagname="main", corpus=True):
@@ -208,6 +237,37 @@ def run_streams(prop, tier, seed, wdir, tagname="main", corpus=True):
     return run_cases(cases, wdir, tagname)
 
 
+def run_streams_thorough(prop, seed, wdir, rounds):
+    """thorough tier: the thorough generator is run with `rounds` different seeds; the shards are executed
+    in parallel (implementation and model), and merged. Round 0 carries the corpus and the plain ids."""
+    import concurrent.futures
+    os.makedirs(wdir, exist_ok=True)
+    def one(k):
+        if k == 0:
+            return run_streams(prop, "thorough", seed, wdir, tagname="main")
+        tag = f"round{k}"
+        cases = os.path.join(wdir, f"{tag}.cases")
+        gen_tmp = cases + ".gen"
+        r = sh([HBIN, "gen", prop, "thorough", str(seed + 7919 * k), gen_tmp], timeout=1800)
+        if r.returncode != 0:
+            print(r.stdout); print("ERROR: harness gen failed"); sys.exit(2)
+        with open(cases, "w") as out:
+            for line in open(gen_tmp):
+                i, _, rest = line.partition(" ")
+                out.write(f"{i}.r{k} {rest}")
+        os.remove(gen_tmp)
+        return run_cases(cases, wdir, tag)
+    with concurrent.futures.ThreadPoolExecutor(max_workers=min(16, rounds)) as ex:
+        parts = list(ex.map(one, range(rounds)))
+    st = parts[0]
+    for q in parts[1:]:
+        for key in ("cases", "impl", "oracle", "meta", "model"):
+            st[key].update(q[key])
+        st["order"].extend(q["order"])
+        st["t_impl"] += q["t_impl"]; st["t_model"] += q["t_model"]
+    return st
+
+
 def run_cases(cases, wdir, tagname):
     impl = os.path.join(wdir, f"{tagname}.impl")
     orac = os.path.join(wdir, f"{tagname}.oracle")
@@ -224,8 +284,14 @@ def run_cases(cases, wdir, tagname):
         print(r.stderr.decode()[-2000:]); print("ERROR: model driver failed"); sys.exit(2)
     t2 = time.time()
     c, order = read_lines(cases)
-    return dict(cases=c, order=order, impl=read_lines(impl)[0], oracle=read_lines(orac)[0],
-                meta=read_lines(meta)[0], model=read_lines(model)[0], files=dict(cases=cases, impl=impl, model=model, oracle=orac),
+    di, dm = read_pair(impl, model)
+    if tagname.startswith("round"):
+        # shards of the thorough tier: the raw outputs are large (full state dumps) and already digested
+        for f_ in (impl, model): 
+            try: os.remove(f_)
+            except OSError: pass
+    return dict(cases=c, order=order, impl=di, oracle=read_lines(orac)[0],
+                meta=read_lines(meta)[0], model=dm, files=dict(cases=cases, impl=impl, model=model, oracle=orac),
                 t_impl=t1 - t0, t_model=t2 - t1)
 
 
@@ -344,7 +410,9 @@ def check(prop, tier, seed):
     os.makedirs(wdir)
     build_harness()
     pl = proof_leg(prop, tier)
-    st = run_streams(prop, tier, seed, wdir)
+    rounds = int(os.environ.get("VERIF_THOROUGH_ROUNDS", "12")) if tier == "thorough" else 1
+    if prop == "C16": rounds = min(rounds, 2)   # C16 pins its own CPU affinity per case: do not oversubscribe
+    st = run_streams_thorough(prop, seed, wdir, rounds) if rounds > 1 else run_streams(prop, tier, seed, wdir)
     dis, fails, skipped = analyse(st)
     unknown, known = known_filter(prop, st, fails)
     dist, distinct = stats(st, set(skipped))
@@ -440,7 +508,11 @@ def replay(path):
     build_lean(["ohsl-model"])
     wdir = os.path.join(WORK, "replay")
     os.makedirs(wdir, exist_ok=True)
-    st = run_cases(path, wdir, "replay")
+    clean = os.path.join(wdir, "replay.cases")
+    with open(clean, "w") as f:
+        for line in open(path):
+            if line.strip() and not line.startswith("#"): f.write(line)
+    st = run_cases(clean, wdir, "replay")
     bad = 0
     for k in st["order"]:
         same = st["impl"].get(k) == st["model"].get(k)
